@@ -380,3 +380,29 @@ Proof.
       rewrite !flip_loop_get, !flip_loop_shape.
       rewrite flips_idx_involutive by auto. reflexivity.
 Qed.
+
+(** * A re-used, mutated Info: the result of prepare depends on the current fields only *)
+
+Lemma info_run_app : forall ops1 st ops2,
+  info_run st (ops1 ++ ops2) = info_run st ops1 ++ info_run (info_final st ops1) ops2.
+Proof.
+  induction ops1 as [|op r IH]; intros st ops2; simpl; auto.
+  destruct (info_step st op) as [st' ob] eqn:E. simpl. rewrite IH. reflexivity.
+Qed.
+
+Lemma info_run_length : forall ops st, length (info_run st ops) = length ops.
+Proof.
+  induction ops as [|op r IH]; intros st; simpl; auto.
+  destruct (info_step st op). simpl. rewrite IH. reflexivity.
+Qed.
+
+Theorem prepare_history_independent : forall st ops1 form vals ops2,
+  let cur := info_final st ops1 in
+  nth (length ops1) (info_run st (ops1 ++ IPrepare form vals :: ops2)) SNothing
+  = let r := prepare_mask (i_shape cur) (i_order cur) form vals 0%Z None (i_mask cur) in
+    SPrep (fst r) (snd r).
+Proof.
+  intros st ops1 form vals ops2 cur. rewrite info_run_app.
+  rewrite app_nth2 by (rewrite info_run_length; auto).
+  rewrite info_run_length, Nat.sub_diag. reflexivity.
+Qed.
